@@ -46,7 +46,7 @@ pub const S5_CORE: &[&str] = &[
     "#", "é", "\u{a0}", "datalines", "cards4", ";;;;", "data", "eq",
 ];
 
-pub const S6: &[&str] = &["0", "1", "9", "5", ".", "e", "E", "+", "-", "x", "X", "a", "F", " "];
+pub const S6: &[&str] = &["0", "1", "9", "5", ".", "e", "E", "+", "-", "x", "X", "a", "F", " ", "%"];
 
 pub const S7: &[&str] = &[
     "\n", " ", "a", ";", "'", "\"", "/*", "*/", "*", "%*", "%m", "(", ")", ",", "=", "%let ",
@@ -230,6 +230,9 @@ pub fn boundary_atoms() -> Vec<String> {
         format!("%{longest_mkw}x"),
         format!("%{}", "q".repeat(maxm)),
         format!("%{}", "q".repeat(maxm + 1)),
+        // a SAS name of the maximal length (32) and one character more
+        "n2345678901234567890123456789012".to_string(),
+        "n23456789012345678901234567890123".to_string(),
         "k".repeat(maxk),
         "k".repeat(maxk + 1),
         "\u{a0}".to_string(),
@@ -336,6 +339,29 @@ pub fn alias_spaces(n: usize) -> Vec<Space> {
     v
 }
 
+/// A run of 66 hidden-channel tokens (comment, blank, comment, ...) placed directly after the
+/// prefix resp. directly before the suffix of every nesting prefix and scanner template: every
+/// look-behind ("last token on the default channel") and look-ahead across insignificant
+/// tokens has to cross it.
+pub fn hidden_run_spaces(n: usize) -> Vec<Space> {
+    let run = "/*c*/ ".repeat(33);
+    let mut v = Vec::new();
+    let mut ctx: Vec<(&str, &str)> = Vec::new();
+    for (p, closers) in SEEDS {
+        ctx.push((p, closers[closers.len() - 1]));
+    }
+    for (p, s) in crate::templates::SCANNER_TEMPLATES {
+        if !ctx.contains(&(*p, *s)) {
+            ctx.push((p, s));
+        }
+    }
+    for (i, (p, s)) in ctx.iter().enumerate() {
+        v.push(Space::seeded(&format!("hrun{i:02}a[{}<run>..{}]", p.escape_debug(), s.escape_debug()), &format!("{p}{run}"), s, SEED_ATOMS, n));
+        v.push(Space::seeded(&format!("hrun{i:02}b[{}..<run>{}]", p.escape_debug(), s.escape_debug()), p, &format!("{run}{s}"), SEED_ATOMS, n));
+    }
+    v
+}
+
 fn sp(name: &str, atoms: &[&str], n: usize) -> Space {
     Space::new(name, atoms, n)
 }
@@ -407,6 +433,7 @@ pub fn sigma_spaces(which: &[&str], tier: Tier) -> Vec<Space> {
                 v.extend(boundary_spaces(if q { 3 } else { 4 }));
                 v.extend(expr_spaces(if q { 3 } else { 4 }));
                 v.extend(alias_spaces(if q { 3 } else { 4 }));
+                v.extend(hidden_run_spaces(if q { 2 } else { 3 }));
                 // every spelling of the in-stream data keywords (coverage measurement showed that
                 // only DATALINES and CARDS4 were ever exercised)
                 v.push(sp("dlfamily", DL_FAMILY, if q { 4 } else { 5 }));
